@@ -206,6 +206,7 @@ func C02(tier string) int {
 	wg.Wait()
 	boundaryPass(rep, "C02", false, true, false)
 	c02ChildStores(rep, thorough)
+	c02Adopt(rep)
 	rep.Set("evaluations", rep.Get("evaluations"))
 	rep.Set("distinct_nontrivial", int(rep.Get("compared_pairs")))
 	return rep.Finish()
@@ -498,4 +499,107 @@ func c02ChildStores(rep *report.Report, thorough bool) {
 		}()
 	}
 	wg.Wait()
+}
+
+// c02Adopt: a parsed query that is used, given another query's sort clause through AdoptSortFields, used again,
+// given its own sort clause back and used a third time - each use must follow the sort clause it has at that
+// moment (all assignments of one string field over {null,a,B} on 4 entities).
+func c02Adopt(rep *report.Report) {
+	w := newQWorld()
+	w.open()
+	defer w.close()
+	sortsA := [][]rm.SortField{nil, {{Sym: "s"}}, {{Sym: "s", Desc: true}}, {{Sym: "id", Desc: true}}, {{Sym: "s"}, {Sym: "id", Desc: true}}}
+	pages := []pageSpec{{}, {skip: i64p(1)}, {skip: i64p(1), limit: i64p(2)}}
+	ids := []string{"e1", "e2", "e3", "e4"}
+	dom := c02Domains["s"]
+	type pq struct {
+		sortA, sortB  []rm.SortField
+		page          pageSpec
+		text          string
+		q, own, other ast.Query
+	}
+	var cases []*pq
+	for _, a := range sortsA {
+		for _, b := range sortsA {
+			for _, pg := range pages {
+				parts := []string{"true"}
+				if st := sortText(a); st != "" {
+					parts = append(parts, st)
+				}
+				if pt := pg.text(); pt != "" {
+					parts = append(parts, pt)
+				}
+				text := strings.Join(parts, " ")
+				otherText := strings.TrimSpace("true " + sortText(b))
+				c := &pq{sortA: a, sortB: b, page: pg, text: text}
+				var err error
+				if c.q, err = ast.Parse(w.people, text); err != nil {
+					rep.Violation("C02|adopt|parse|"+text, err.Error(), nil)
+					continue
+				}
+				c.own, _ = ast.Parse(w.people, text)
+				if c.other, err = ast.Parse(w.people, otherText); err != nil {
+					rep.Violation("C02|adopt|parse|"+otherText, err.Error(), nil)
+					continue
+				}
+				cases = append(cases, c)
+			}
+		}
+	}
+	idx := make([]int, len(ids))
+	for !rep.TooMany() {
+		ds := newQDS()
+		var lb strings.Builder
+		for ei, id := range ids {
+			e := &rm.Ent{Id: id, F: map[string]rm.Val{"s": dom[idx[ei]]}, Sets: map[string][]string{}, Fk: map[string]*string{}, Tags: map[string]rm.Val{}}
+			fmt.Fprintf(&lb, "%s{s=%s} ", id, e.F["s"])
+			ds.Stores["people"].Ents[id] = e
+		}
+		label := lb.String()
+		_ = w.db.Update(nil, func(ctx boltz.MutateContext) error {
+			if err := w.materialise(ctx, ds); err != nil {
+				rep.Violation("C02|adopt|materialise|"+label, err.Error(), nil)
+				return errSkip
+			}
+			for _, c := range cases {
+				skip, limit := c.page.ref()
+				for step, st := range []struct {
+					adopt ast.Query
+					sort  []rm.SortField
+					what  string
+				}{{nil, c.sortA, "own sort clause"}, {c.other, c.sortB, "after AdoptSortFields(" + sortText(c.sortB) + ")"}, {c.own, c.sortA, "after adopting its own sort clause back"}} {
+					if st.adopt != nil {
+						if err := c.q.AdoptSortFields(st.adopt); err != nil {
+							rep.Violation("C02|adopt|error|"+c.text, err.Error(), nil)
+							break
+						}
+					}
+					want, total := ds.SortPage("people", ids, st.sort, skip, limit)
+					rep.Count("evaluations", 1)
+					rep.Count("compared_pairs", 1)
+					rep.Count("adopted_sort_uses", 1)
+					got, count, err := w.people.QueryIdsC(ctx.Tx(), c.q)
+					if err != nil || strings.Join(got, ",") != strings.Join(want, ",") || count != total {
+						rep.Violation(fmt.Sprintf("C02|adopt|wrong-page|%s|use-%d|adopted=%s", c.text, step+1, sortText(c.sortB)), fmt.Sprintf("query %q (%s) on %s = %v count=%d err=%v, reference %v count=%d", c.text, st.what, label, got, count, err, want, total), map[string]interface{}{"query": c.text, "dataset": label})
+						break
+					}
+				}
+				// leave the query with its own sort clause for the next dataset
+				_ = c.q.AdoptSortFields(c.own)
+			}
+			return errSkip
+		})
+		k := len(idx) - 1
+		for k >= 0 {
+			idx[k]++
+			if idx[k] < len(dom) {
+				break
+			}
+			idx[k] = 0
+			k--
+		}
+		if k < 0 {
+			break
+		}
+	}
 }
